@@ -1007,7 +1007,6 @@ func main() {
 				}
 				var lc localCount
 				for _, cx := range ctxs {
-					f.runR(depth1Big[i], depth1Big[i].enc, cx, 0, "", &lc)
 					f.runR(depth1Big[i], depth1Big[i].enc, cx, math.MaxUint64, "", &lc)
 				}
 				lc.flush()
